@@ -205,3 +205,95 @@ Proof.
 Qed.
 
 End Proofs.
+
+(* ---- raw-pointer forms ---- *)
+Lemma raw_range_length h so eo : eo <= length h -> length (raw_range h so eo) = eo - so.
+Proof. intros H. unfold raw_range. rewrite firstn_length, skipn_length. lia. Qed.
+
+Lemma raw_range_nth h so eo i : i < eo - so -> nth i (raw_range h so eo) 0%N = nth (so + i) h 0%N.
+Proof.
+  intros H. unfold raw_range. rewrite nth_firstn' by exact H. apply nth_skipn'.
+Qed.
+
+Lemma raw_range_bytes h so eo : Forall (fun x => (x < 256)%N) h -> Forall (fun x => (x < 256)%N) (raw_range h so eo).
+Proof.
+  intros H. unfold raw_range. apply Forall_forall. intros x Hx.
+  apply (proj1 (Forall_forall _ h) H). apply (In_skipn' h so). apply (In_firstn' (skipn so h) (eo - so)). exact Hx.
+Qed.
+
+Section Raw.
+Variables (ns : list N) (a : nat) (h : list N) (so eo : nat).
+Hypothesis Hns : ns <> [].
+Hypothesis Hbytes : Forall (fun x => (x < 256)%N) h.
+Hypothesis Hneedles : Forall (fun x => (x < 256)%N) ns.
+Hypothesis Heo : eo <= length h.
+Notation p := (confirm ns).
+(* loads are relative to the range [so, eo), whose first byte is at address a + so *)
+Notation okr := (load_ok (a + so) (eo - so) 0 0).
+
+Theorem backend_find_raw_sat b :
+  satq okr (backend_find_raw ns a h so eo b)
+       (fun r => r = if eo <=? so then None else option_map (fun i => so + i) (first_idx p (raw_range h so eo))).
+Proof.
+  unfold backend_find_raw. destruct (eo <=? so) eqn:E.
+  - apply satq_ret. reflexivity.
+  - eapply satq_bind.
+    { pose proof (backend_find_sat ns (a + so) (raw_range h so eo) Hns (raw_range_bytes h so eo Hbytes) Hneedles b) as Hs.
+      rewrite (raw_range_length h so eo Heo) in Hs. exact Hs. }
+    intros r ->. apply satq_ret. reflexivity.
+Qed.
+
+Theorem backend_rfind_raw_sat b :
+  satq okr (backend_rfind_raw ns a h so eo b)
+       (fun r => r = if eo <=? so then None else option_map (fun i => so + i) (last_idx p (raw_range h so eo))).
+Proof.
+  unfold backend_rfind_raw. destruct (eo <=? so) eqn:E.
+  - apply satq_ret. reflexivity.
+  - eapply satq_bind.
+    { pose proof (backend_rfind_sat ns (a + so) (raw_range h so eo) Hns (raw_range_bytes h so eo Hbytes) Hneedles b) as Hs.
+      rewrite (raw_range_length h so eo Heo) in Hs. exact Hs. }
+    intros r ->. apply satq_ret. reflexivity.
+Qed.
+
+Theorem backend_count_raw_sat b : length ns = 1 ->
+  satq okr (backend_count_raw ns a h so eo b)
+       (fun r => r = if eo <=? so then 0 else count_p p (raw_range h so eo)).
+Proof.
+  intros H1. unfold backend_count_raw. destruct (eo <=? so) eqn:E.
+  - apply satq_ret. reflexivity.
+  - rewrite <- (raw_range_length h so eo Heo).
+    apply backend_count_sat; assumption.
+Qed.
+
+(* in terms of the whole buffer: a returned index lies in [so, eo), matches, and is the first (last) such index *)
+Corollary backend_find_raw_spec b i :
+  fst (backend_find_raw ns a h so eo b) = Ok (Some i) ->
+  so <= i < eo /\ p (nth i h 0%N) = true /\ forall j, so <= j < i -> p (nth j h 0%N) = false.
+Proof.
+  intros Hr. destruct (satq_fst _ _ _ (backend_find_raw_sat b)) as (v & Hv & Hp & _).
+  rewrite Hr in Hv. injection Hv as <-. destruct (eo <=? so) eqn:E; [discriminate|].
+  apply Nat.leb_gt in E.
+  destruct (first_idx p (raw_range h so eo)) as [k|] eqn:Ek; [|discriminate].
+  cbn [option_map] in Hp. injection Hp as ->.
+  apply (first_idx_some p _ k 0%N) in Ek as (K1 & K2 & K3). rewrite (raw_range_length h so eo Heo) in K1.
+  rewrite (raw_range_nth h so eo k K1) in K2.
+  split; [lia|]. split; [exact K2|]. intros j Hj.
+  specialize (K3 (j - so) ltac:(lia)). rewrite (raw_range_nth h so eo (j - so) ltac:(lia)) in K3.
+  replace (so + (j - so)) with j in K3 by lia. exact K3.
+Qed.
+
+Corollary backend_find_raw_none b :
+  fst (backend_find_raw ns a h so eo b) = Ok None -> forall j, so <= j < eo -> p (nth j h 0%N) = false.
+Proof.
+  intros Hr j Hj. destruct (satq_fst _ _ _ (backend_find_raw_sat b)) as (v & Hv & Hp & _).
+  rewrite Hr in Hv. injection Hv as <-. destruct (eo <=? so) eqn:E.
+  - apply Nat.leb_le in E. lia.
+  - destruct (first_idx p (raw_range h so eo)) as [k|] eqn:Ek; [discriminate|].
+    rewrite first_idx_none in Ek. rewrite Forall_forall in Ek.
+    assert (j - so < eo - so) as Hlt by lia.
+    specialize (Ek (nth (j - so) (raw_range h so eo) 0%N)
+                   ltac:(apply nth_In; rewrite (raw_range_length h so eo Heo); exact Hlt)).
+    rewrite (raw_range_nth h so eo (j - so) Hlt) in Ek. replace (so + (j - so)) with j in Ek by lia. exact Ek.
+Qed.
+
+End Raw.
